@@ -57,12 +57,13 @@ PROPS = {
         "assumptions": COMMON_ASSUME,
     },
     "C05": {
-        "rules": ["R-CUMSUM", "R-DEDUP", "R-DUPSKIP", "R-SAMPLECOUNT", "R-STUB", "R-ALPHAGUARD", "R-EXTENT-FM", "R-STALESIZE", "R-SCANLEN"],
+        "rules": ["R-STALEVAR", "R-CUMSUM", "R-DEDUP", "R-DUPSKIP", "R-SAMPLECOUNT", "R-STUB", "R-ALPHAGUARD", "R-EXTENT-FM", "R-STALESIZE", "R-SCANLEN"],
         "explanation": "Only the de-duplication protocol and the configuration guard are decided: the occurrence array is sorted over exactly [a,a+n) "
                        "and carries the 0 sentinel at a[n] before a duplicate-skipping iterator is created, is allocated with n+1 entries, and the "
                        "BWTsampling==0 configuration is an effect-free stub. "
                        "Added later: sibling agreement of the duplicate-skipping loops, sample-count agreement across allocation/save/load/conversion, stale container-size bounds, FM-index table extents and scan length.",
-        "decided": ["the cumulative pass over the FM-index occ table reaches its last saved entry (R-CUMSUM)",
+        "decided": ["no per-occurrence value computed only inside a possibly empty inner loop is read after it without being reset: one occurrence's result cannot leak into the next (R-STALEVAR; found SSA::locate, fixed 7838953)",
+                    "the cumulative pass over the FM-index occ table reaches its last saved entry (R-CUMSUM)",
                     "sort-before-dedup over the exact range, sentinel store, allocation extent matches+1 (R-DEDUP)",
                     "BWTsampling==0 guard first, stub region returns null (R-STUB)", "absent bytes are rejected before indexing (R-ALPHAGUARD)",
                     "the FM-index tables (occ, alphabet, samples) are saved with the extent they are allocated with, so a loaded index is indexed within bounds like a built one (R-EXTENT-FM)",
@@ -265,7 +266,7 @@ PROPS = {
         "assumptions": COMMON_ASSUME + ["pointer roots are tracked flow-insensitively per function; a store through a pointer loaded from a dictionary field is attributed to that field"],
     },
     "C09": {
-        "rules": ["R-SLOT", "R-JOIN", "R-PARAMFLOW", "R-WORKERPURE", "R-NONDET", "R-CV", "R-INITEXTENT"],
+        "rules": ["R-LOCKSET", "R-SLOT", "R-JOIN", "R-PARAMFLOW", "R-WORKERPURE", "R-NONDET", "R-CV", "R-INITEXTENT"],
         "explanation": "Schedule-independence argued structurally: every worker-visible input is fixed before the task is queued and every "
                        "worker-written output goes to a slot reserved before queuing (R-SLOT); the constructor cannot return, free the input or "
                        "let captures die before wait -> stop -> join on any CFG path (R-JOIN); thread_count reaches only the pool size "
